@@ -1027,7 +1027,7 @@ pub fn entry_point(tx: &tir::Tx, pparams: &PParams) -> Result<primitives::Tx<'st
 pub mod verif_hooks {
     use super::*;
 
-    pub use super::asset_math::{aggregate_assets, fold_multiassets};
+    pub use super::asset_math::{aggregate_assets, fold_multiassets, try_aggregate_values};
     pub use super::plutus_data::{constr, IntoData, TryIntoData};
 
     pub fn compile_struct(ir: &tir::StructExpr) -> Result<primitives::PlutusData, Error> {
